@@ -5,7 +5,7 @@
      - on success no node of the result is shared with the patch / the source, none occurs twice;
      - the result equals Patch!Apply(doc, patch).doc, or the call fails exactly when Apply fails,
        reporting the index of the first failing operation (and a message).
-   Not judged: patches with an operation on the whole document (path or from ""). *)
+   Not judged: patches that replace, drop or move the whole document (Patch!WholeDoc); reading it (test "", copy from "") is judged. *)
 EXTENDS Naturals, Integers, Sequences, TLC, Json, IOUtils
 VARIABLES st, l
 PA == INSTANCE Patch WITH AsFoundP <- {}
